@@ -474,6 +474,33 @@ PAYLOADS = [
     ("string-index", "odd", "\"abc\"[5]"),
     ("starred-assign-target", "odd", "[*range(3)]"),
 ]
+# Whole scripts in which a value that the transpiler folds grows line after line (every line is cheap for CPython as written:
+# the scripts are never run, only translated) - translation must stay prompt and small.
+def growth_scripts() -> list[tuple[str, str]]:
+    out = []
+    def add(name, first, step, n, last="sleep(1)\n"):
+        out.append((f"{name}-x{n}", PRE + first + step * n + last))
+    for n in (12, 24, 48):
+        add("int-square", "ga = 2 ** 2000\n", "ga = ga * ga\n", n)
+        add("int-cube-chain", "ga = 3 ** 1000\n", "ga = ga * ga * ga\n", n)
+        add("int-square-through-two-names", "ga = 7 ** 700\ngb = 1\n", "gb = ga * ga\nga = gb * gb\n", n)
+        add("str-double", 'gs = "ab"\n', "gs = gs + gs\n", n, "mon.write(len(gs))\n")
+        add("fstr-double", 'gs = "ab"\n', 'gs = f"{gs}{gs}"\n', n, "mon.write(len(gs))\n")
+        add("str-double-aug", 'gs = "ab"\n', "gs += gs\n", n, "mon.write(len(gs))\n")
+        add("shift-chain", "ga = 1\n", "ga = ga << 3000\n", n)
+        add("pow-chain", "ga = 3\n", "ga = ga ** ga\n", n // 4)
+        add("list-double", "gl = [1, 2]\n", "gl = gl + gl\n", n)
+        add("float-square", "gf = 1.5\n", "gf = gf * gf\n", n)
+    # one expression nested far deeper than CPython's own parser goes (it gives up with MemoryError / RecursionError / SyntaxError)
+    for name, text in (("deep-unary-minus", "gx = " + "-" * 100000 + "1\n"), ("deep-unary-invert", "gx = " + "~" * 60000 + "1\n"),
+                       ("deep-not", "gx = " + "not " * 40000 + "True\n"), ("deep-parens", "gx = " + "(" * 3000 + "1" + ")" * 3000 + "\n"),
+                       ("deep-brackets", "gx = " + "[" * 3000 + "1" + "]" * 3000 + "\n"), ("deep-unary-in-call", "sleep(" + "-" * 100000 + "1)\n"),
+                       ("deep-unary-in-condition", "if " + "-" * 100000 + "1:\n    led.on()\n"), ("deep-attribute-chain", "gx = led" + ".a" * 20000 + "\n"),
+                       ("deep-call-chain", "gx = helper" + "(1)" * 20000 + "\n")):
+        out.append((name, PRE + text))
+    return out
+
+
 SLOT = {s[0]: s for s in SLOTS}
 PAYLOAD = {p[0]: p for p in PAYLOADS}
 
